@@ -24,7 +24,7 @@ func MainC09(prop, tier string) int {
 		r.Floor("steps_compared", 1)
 		return r.Finish()
 	}
-	r.Fanout("c09", vk.NumWorkers(), 40*time.Minute)
+	r.Fanout("c09", vk.NumWorkers(), 90*time.Minute)
 	r.Floor("steps_compared", 500)
 	r.Floor("accepts_checked", 10)
 	return r.Finish()
@@ -193,7 +193,7 @@ func workerC09(r *vk.Run, w, n int, args []string) {
 	rng := rand.New(rand.NewSource(r.Seed*6007 + int64(w)*137 + 9))
 	sessions := 800
 	if !r.Quick() {
-		sessions = 3000
+		sessions = 15000
 	}
 	per := sessions/n + 1
 	for i := 0; i < per; i++ {
